@@ -54,6 +54,8 @@ def coq_stmt(s):
     if op == "arrnew": return "SArrNew %d %s" % (s[1], nl(s[2]))
     if op == "arrget": return "SArrGet %d %d %s" % (s[1], s[2], nl(s[3]))
     if op == "arrset": return "SArrSet %d %s %d" % (s[1], nl(s[2]), s[3])
+    if op == "arrcopy": return "SArrCopy %d %d" % (s[1], s[2])
+    if op == "barrset": return "SBArrSet %d %s %d" % (s[1], nl(s[2]), s[3])
     if op == "bset": return "SBSet %d %d" % (s[1], s[2])
     if op == "bget": return "SBGet %d %d" % (s[1], s[2])
     if op == "bsetidx": return "SBSetIdx %d %s %d" % (s[1], nl(s[2]), s[3])
@@ -139,6 +141,13 @@ def run_impl_cases(cases, full=False, backend_module=None, timeout=900, real_bac
 def run_model_compare(cases, recs, shard=None, timeout=1500):
     """Evaluate the model inside Coq on every case and compare the four digests.
     Returns (codes, errors): codes[i] = 0 if all digests equal, else bitmask (1 vars, 2 constraints, 4 results, 8 exception/globals)."""
+    if any(c.get("nomodel") for c in cases):
+        # cases with runner-only statements (no model counterpart) are decided by the direct oracles alone
+        mi = [i for i, c in enumerate(cases) if not c.get("nomodel")]
+        mcodes, errors = run_model_compare([cases[i] for i in mi], [recs[i] for i in mi], shard, timeout) if mi else ([], [])
+        codes = [0] * len(cases)
+        for i, cd in zip(mi, mcodes): codes[i] = cd
+        return codes, errors
     if shard is None:
         shard = max(15, min(150, -(-len(cases) // common.NPROC)))
     files = []
